@@ -465,8 +465,17 @@ func (gsr *GoStructRegistryType) GetOrCreateSliceType(rt *RegisteredType) *Regis
 		Q("type named '%v' already registered, re-using the type", sliceName)
 	} else {
 		Q("registering new slice type '%v'", sliceName)
-		derivedType := reflect.SliceOf(rt.TypeCache)
+		// an element type without a Go sample value (a plain hash)
+		// has no TypeCache; reflect.SliceOf(nil) would be a nil
+		// dereference. Such a slice type has no Go sample either.
+		var derivedType reflect.Type
+		if rt.TypeCache != nil {
+			derivedType = reflect.SliceOf(rt.TypeCache)
+		}
 		sliceRt = NewRegisteredType(func(env *Zlisp, h *SexpHash) (interface{}, error) {
+			if derivedType == nil {
+				return nil, nil
+			}
 			return reflect.MakeSlice(derivedType, 0, 0), nil
 		})
 		sliceRt.DisplayAs = fmt.Sprintf("(%s)", sliceName)
